@@ -44,6 +44,7 @@ def run(ctx):
     c05.r54(ctx, api)
     c05.r55(ctx, api)
     c05.r57(ctx, api, 'R13.7')
+    c05.r59(ctx, api, 'R13.9')
     from . import c03
     c03.r313(ctx, ctx.repo['core'], 'R13.6')
     from . import callsigs as _cs
